@@ -6,6 +6,12 @@ ids = [p['id'] for p in props]
 E = 'exploration'; M = 'model_checking'; F = 'fault_enumeration'
 # id: (level, technique, level text, level_note, design_ref)
 checks = {
+ 'C34': (E, 'bounded-exhaustive enumeration of directories (all subsets up to size 2/3 of an 81-entry universe x contents x 10 configurations) on an in-memory FileSystem against the reference model dirref',
+         'Every directory of <=2 (quick) / <=3 (thorough) entries from 8 stems x 10 extensions (+ a sub-directory), every package-clause assignment and 10 ClassKind/Mode/Filter configurations is parsed by the real ParseFSDir and compared with dirref: inclusion, Files vs GoFiles, package grouping, IsClass/IsProj/IsNormalGox, error presence.',
+         'dirref is derived from the doc comments and the statement; .gop recognition and gop_autogen-as-prefix are taken from the code (docs silent); all file contents parse.', '§2 C34'),
+ 'C36': (M, 'explicit-state BFS over file-system histories of a real module directory, real PkgHash computed in every state, pairwise hash-vs-projection oracle',
+         'BFS from the empty package directory over create/grow/touch/rename/delete/mkdir/rmdir to depth 4 (quick) / 6 (thorough), deduplicated on the abstract state; every state is materialised on disk with explicit mtimes and hashed by the real tool.Importer.PkgHash; globally, hashes are equal iff the relevant projections (non-underscore regular files with compilable extension: name,size,mtime) are equal.',
+         'Regular files and directories only, whole-second mtimes, one module; the set of compilable extensions is cross-checked between code and statement.', '§2 C36'),
  'C38': (E, 'bounded-exhaustive enumeration of message sequences and of malformed streams (all truncations, single-byte substitutions, header menu) against an independent framing reference model, in worker subprocesses',
          'All sequences of <=2 (quick) / <=3 (thorough) messages over a 156-message menu are written by the real HeaderFramer, parsed by the reference framingref, read back whole and one byte per Read and compared; every truncation and every substitution from a 9-byte set at every position of base streams plus a 78-variant header/body menu are judged per Read against the reference (Accept/Reject/Unsure); consumption must end exactly at the declared length.',
          'Reference model from the LSP base protocol + JSON-RPC 2.0 texts; streams the reference cannot decide are excluded and counted; up-front allocation of the declared length (<=2 GiB) is observed, not judged.', '§2 C38'),
